@@ -112,6 +112,7 @@ func codecCore(ops *typeOps) {
 	// ---- decode (C01) ----
 	vrt.Phase("decode")
 	vrt.Freeze("buf", true)
+	vrt.SetOwner("user")
 	pw := ops.New()
 	dst := ops.ToRef(pw)
 	want := refRoundTripStruct(ops.St, rv, dst)
@@ -198,9 +199,10 @@ type extent struct {
 }
 
 type walker struct {
-	buf   []byte
-	exts  []extent
-	views []extent // nocopy views as offsets into buf
+	prefilled bool // destination had prior contents: untouched fields legitimately hold the caller's memory
+	buf       []byte
+	exts      []extent
+	views     []extent // nocopy views as offsets into buf
 }
 
 func (w *walker) bufRange() (uintptr, uintptr) {
@@ -225,6 +227,9 @@ func (w *walker) region(p unsafe.Pointer, nbytes, align, elemSize int, hasPtr bo
 		return
 	}
 	vrt.Check(a%uintptr(align) == 0, "C06 aligned for its element type")
+	if vrt.IsStatic(p) {
+		return // immutable literal (a declared default), not memory created for a transmitted value
+	}
 	vrt.Check(vrt.IsOwner(p, "dec+"), "C06 memory belongs to this decode")
 	vrt.Check(vrt.BlockOff(p)+uint64(nbytes) <= vrt.BlockSize(p) || !vrt.Symbolic(), "C06 extent lies inside its allocation")
 	if hasPtr {
@@ -247,9 +252,12 @@ func (w *walker) str(s string, what string, nocopy bool) {
 		vrt.Check(p == nil || uintptr(p) < blo || uintptr(p) >= bhi, "C14 zero-length value does not reference the input buffer")
 		return
 	}
-	if nocopy {
+	if nocopy && !w.prefilled {
 		w.view(unsafe.Pointer(unsafe.StringData(s)), len(s), len(s), what)
 		return
+	}
+	if nocopy {
+		return // untouched prior contents can not be told from transmitted values here
 	}
 	w.region(unsafe.Pointer(unsafe.StringData(s)), len(s), 1, 1, false, what, false)
 }
@@ -264,8 +272,11 @@ func (w *walker) bin(b []byte, what string, nocopy bool) {
 		vrt.Check(uintptr(p) < blo || uintptr(p) >= bhi, "C14 zero-length value does not reference the input buffer")
 		return
 	}
-	if nocopy {
+	if nocopy && !w.prefilled {
 		w.view(unsafe.Pointer(unsafe.SliceData(b)), len(b), cap(b), what)
+		return
+	}
+	if nocopy {
 		return
 	}
 	w.region(unsafe.Pointer(unsafe.SliceData(b)), cap(b), 1, 1, false, what, false)
@@ -344,7 +355,9 @@ func decmsgCore(w, t *typeOps) {
 	vrt.Observe("msg", buf)
 	vrt.SetOwner("user")
 	pw := t.New()
+	prefilled := false
 	if vrt.Choice("prefill", 2) == 1 {
+		prefilled = true
 		// every field pre-set: pointers non-nil, containers with one element, symbolic contents
 		fixedShape = 2
 		t.Prefill(pw, "dst")
@@ -370,7 +383,7 @@ func decmsgCore(w, t *typeOps) {
 			vrt.Check(refEqualStruct(t.St, want, got), "C03 every transmitted field is set to the transmitted value, every other field untouched")
 			vrt.Observe("got", refEncodeStruct(t.St, got, nil))
 		}
-		wk := &walker{buf: buf}
+		wk := &walker{buf: buf, prefilled: prefilled}
 		t.Walk(pw, wk)
 		vrt.Reach("ok")
 	} else if !rok && err != nil {
